@@ -399,8 +399,16 @@ func (a *scriptActor) doOp(ctx vivid.ActorContext, m umsg) {
 		x.ev(map[string]any{"e": "Stashed", "a": a.name, "m": m.ID, "n": ctx.StashCount()})
 	case "unstash":
 		before := ctx.StashCount()
-		ctx.Unstash(2)
-		x.ev(map[string]any{"e": "Unstashed", "a": a.name, "n": before - ctx.StashCount(), "v": ctx.StashCount()})
+		n := 2
+		if m.Arg != "" {
+			fmt.Sscan(m.Arg, &n)
+		}
+		ctx.Unstash(n)
+		if n > before {
+			n = before
+		}
+		// n: how many messages the call had to give back (the request, capped by what was stashed); v: what is left
+		x.ev(map[string]any{"e": "Unstashed", "a": a.name, "n": n, "v": ctx.StashCount()})
 	case "kill", "pkill":
 		if r := x.ref(m.Arg); r != nil {
 			x.ev(map[string]any{"e": "KillCall", "a": m.Arg, "p": a.name, "v": b2i(m.Op == "pkill")})
